@@ -572,3 +572,29 @@ package caldav
 //@   ensures S4: mutations != old(mutations) ==> (r.Method == "PUT" || r.Method == "DELETE" || r.Method == "MKCOL") && (wstatus(w) < 300 || (servedErr != nil && beErr(servedErr)))
 //@   ensures S3: !routedC(r) ==> mutations == old(mutations)
 //@   ensures S2: r.Method != "GET" && r.Method != "HEAD" ==> wstatus(w) != 0
+
+//@ -- ---------------------------------------------------------------------------------------
+//@ -- The PropFindFunc literals (C11 / C13): each satisfies the clauses assumed for calls through a PropFindFunc value
+//@ -- (specs: funcvalue:internal.PropFindFunc). Their preconditions speak about the captured variables, which hold
+//@ -- where the literal is created (precondition R1 of the creating function).
+//@ func caldav.(*backend).propFindCalendar$1(raw) (val, err)
+//@   requires C1: *b != nil && (*b).Backend != nil
+//@   allocates
+//@   ensures V1: mutations == old(mutations) && epCalls == old(epCalls) && epCode == old(epCode) && epVal == old(epVal)
+//@   ensures V2: err != nil ==> beErr(err) || fromEnv(err)
+//@ func caldav.(*backend).propFindCalendar$2(raw) (val, err)
+//@   requires C1: *cal != nil
+//@   allocates
+//@   ensures V1: mutations == old(mutations) && epCalls == old(epCalls) && epCode == old(epCode) && epVal == old(epVal)
+//@   ensures V2: err == nil
+//@   loop 1 invariant I1: fresh(components) && mutations == old(mutations) && epCalls == old(epCalls) && epCode == old(epCode) && epVal == old(epVal)
+//@ func caldav.(*backend).propFindCalendarObject$1(raw) (val, err)
+//@   requires C1: *b != nil && (*b).Backend != nil
+//@   allocates
+//@   ensures V1: mutations == old(mutations) && epCalls == old(epCalls) && epCode == old(epCode) && epVal == old(epVal)
+//@   ensures V2: err != nil ==> beErr(err) || fromEnv(err)
+//@ func caldav.(*backend).propFindCalendarObject$2(raw) (val, err)
+//@   requires C1: *co != nil
+//@   allocates
+//@   ensures V1: mutations == old(mutations) && epCalls == old(epCalls) && epCode == old(epCode) && epVal == old(epVal)
+//@   ensures V2: err != nil ==> beErr(err) || fromEnv(err)
